@@ -75,10 +75,20 @@ CaseResult run_static(const RunCtx &ctx, TapeReader &t, unsigned size_hint) {
     size_t reserved_tail = t.chance(1, 12) ? 1 + t.below(3) : 0;
     if (const std::string *xr = ctx.x("xreserved")) reserved_tail = strtoull(xr->c_str(), nullptr, 10);
     const size_t n_valid = keys.size();
+    size_t n_by = t.below(3), by_eps[2] = {1, 1}; // bystander indexes (a tape that ends here decodes to none)
+    for (size_t b = 0; b < n_by; ++b) by_eps[b] = gen_epsilon(t);
+    if (const std::string *xb = ctx.x("xbystanders")) {
+        n_by = 0;
+        std::istringstream is(*xb);
+        size_t e;
+        while (n_by < 2 && is >> e) by_eps[n_by++] = e;
+    }
 
     if (ctx.want_desc) {
         std::ostringstream d;
-        d << "pgm_index_" << type_name<K>() << " epsilon=" << eps << " reserved_tail=" << reserved_tail << " " << describe_keys(keys, meta);
+        d << "pgm_index_" << type_name<K>() << " epsilon=" << eps << " reserved_tail=" << reserved_tail << " bystanders=" << n_by;
+        for (size_t b = 0; b < n_by; ++b) d << (b ? "," : " with epsilon ") << by_eps[b];
+        d << " " << describe_keys(keys, meta);
         res.desc = d.str();
         std::string xk = keys_to_text(keys);
         if (!xk.empty()) {
@@ -87,6 +97,9 @@ CaseResult run_static(const RunCtx &ctx, TapeReader &t, unsigned size_hint) {
             res.xdata.emplace_back("xprocs", std::to_string(meta.procs));
             res.xdata.emplace_back("xeps", std::to_string(eps));
             res.xdata.emplace_back("xreserved", std::to_string(reserved_tail));
+            std::string xb;
+            for (size_t b = 0; b < n_by; ++b) xb += (b ? " " : "") + std::to_string(by_eps[b]);
+            res.xdata.emplace_back("xbystanders", xb);
         }
     }
     if (!ctx.execute) return res;
@@ -118,41 +131,63 @@ CaseResult run_static(const RunCtx &ctx, TapeReader &t, unsigned size_hint) {
         return res;
     }
     std::vector<K> queries = gen_queries<K>(keys, meta, std::min<size_t>(eps, 64), false, false);
+    // Bystanders: 0..2 further static indexes of the same key type, created AFTER h with epsilons of their own and alive while h is queried
+    // (a handle's answers must depend on nothing but its own data and epsilon).  Their data is every stride-th key of the case.
+    struct By {
+        typename C::H *h;
+        std::vector<K> keys;
+        size_t eps;
+    };
+    std::vector<By> bys;
+    for (size_t b = 0; b < n_by; ++b) {
+        By y;
+        size_t stride = 1 + by_eps[b] % 3;
+        for (size_t i = 0; i < keys.size(); i += stride) y.keys.push_back(keys[i]);
+        y.eps = by_eps[b];
+        y.h = C::create(y.keys.data(), y.keys.size(), y.eps);
+        if (y.h == nullptr) {
+            res.fail("create returned NULL on valid data (bystander)");
+            for (auto &z: bys) C::destroy(z.h);
+            C::destroy(h);
+            return res;
+        }
+        bys.push_back(std::move(y));
+    }
+    if (n_by) res.label("bystanders_alive");
+    bool eps_differ = false;
+    for (auto &y: bys) eps_differ |= y.eps != eps;
+    if (eps_differ) res.label("bystander_epsilon_differs");
     const size_t n = keys.size();
     uint64_t nq = 0;
-    size_t min_lo_hi = size_t(-1), distinct_ranges = 0;
     bool absent = false;
-    size_t prev_lo = size_t(-1);
-    for (const K &q: queries) {
-        approx_pos_t r = C::search(h, q);
-        ++nq;
-        if (mem) continue;
-        size_t L = size_t(std::lower_bound(keys.begin(), keys.end(), q) - keys.begin());
-        bool present = L < n && keys[L] == q;
-        std::ostringstream w;
-        w << "query=" << key_str(q) << " search={pos=" << r.pos << ",lo=" << r.lo << ",hi=" << r.hi << "} lower_bound=" << L << " n=" << n << " epsilon=" << eps
-          << (present ? " (present)" : " (absent)");
-        if (!(r.lo <= r.hi && r.hi <= n)) {
-            res.fail("range not inside [0,n]: " + w.str());
-            break;
+    size_t prev_lo = size_t(-1), distinct_ranges = 0;
+    auto check_queries = [&](typename C::H *hh, const std::vector<K> &ks, size_t e, size_t limit, const char *who) {
+        const size_t nn = ks.size();
+        size_t done = 0;
+        for (const K &q: queries) {
+            if (done++ >= limit) break;
+            approx_pos_t r = C::search(hh, q);
+            ++nq;
+            if (mem) continue;
+            size_t L = size_t(std::lower_bound(ks.begin(), ks.end(), q) - ks.begin());
+            bool present = L < nn && ks[L] == q;
+            std::ostringstream w;
+            w << who << "query=" << key_str(q) << " search={pos=" << r.pos << ",lo=" << r.lo << ",hi=" << r.hi << "} lower_bound=" << L << " n=" << nn
+              << " epsilon=" << e << (present ? " (present)" : " (absent)");
+            if (!(r.lo <= r.hi && r.hi <= nn)) return res.fail("range not inside [0,n]: " + w.str()), false;
+            if (r.hi - r.lo > 2 * e + 2) return res.fail("range wider than 2*epsilon+2: " + w.str()), false;
+            size_t Lr = size_t(std::lower_bound(ks.begin() + r.lo, ks.begin() + r.hi, q) - ks.begin());
+            if (Lr != L) return res.fail("lower_bound in [lo,hi) = " + std::to_string(Lr) + " differs from global: " + w.str()), false;
+            if (present && !(r.lo <= L && L < r.hi)) return res.fail("first occurrence not strictly inside [lo,hi): " + w.str()), false;
+            if (!present) absent = true;
+            if (r.lo != prev_lo) ++distinct_ranges, prev_lo = r.lo;
         }
-        if (r.hi - r.lo > 2 * eps + 2) {
-            res.fail("range wider than 2*epsilon+2: " + w.str());
-            break;
-        }
-        size_t Lr = size_t(std::lower_bound(keys.begin() + r.lo, keys.begin() + r.hi, q) - keys.begin());
-        if (Lr != L) {
-            res.fail("lower_bound in [lo,hi) = " + std::to_string(Lr) + " differs from global: " + w.str());
-            break;
-        }
-        if (present && !(r.lo <= L && L < r.hi)) {
-            res.fail("first occurrence not strictly inside [lo,hi): " + w.str());
-            break;
-        }
-        if (!present) absent = true;
-        if (r.lo != prev_lo) ++distinct_ranges, prev_lo = r.lo;
-        (void) min_lo_hi;
-    }
+        return true;
+    };
+    bool okq = check_queries(h, keys, eps, size_t(-1), "");
+    for (size_t b = 0; okq && b < bys.size(); ++b) okq = check_queries(bys[b].h, bys[b].keys, bys[b].eps, 300, b ? "[bystander 2] " : "[bystander 1] ");
+    if (okq && !bys.empty()) okq = check_queries(h, keys, eps, 300, "[after the bystanders' queries] ");
+    for (auto &y: bys) C::destroy(y.h);
     size_t bytes = C::bytes(h);
     C::destroy(h);
     res.sum("queries", nq);
@@ -468,7 +503,8 @@ static CaseResult run(const RunCtx &ctx, const Tape &tape, Tape &canon) {
 
 static const char *rule(const std::string &) {
     return "cases: 4/7 static (int32/int64/uint32/uint64 arrays from the shared recipe generator, run-time epsilon 1..4096 log-uniform + boundary values, 1..20 "
-           "threads; 1/12 of them end with copies of the reserved value and must yield NULL), 3/7 dynamic (int32/int64/uint32: create_empty / create(empty) / "
+           "threads; 1/12 of them end with copies of the reserved value and must yield NULL; 2/3 of the others are queried while 1-2 further indexes of the same "
+           "key type, created later with epsilons of their own over every 1st-3rd key, are alive, and those are checked too), 3/7 dynamic (int32/int64/uint32: create_empty / create(empty) / "
            "create(sorted pairs with repeats), then 4..210 calls of insert_or_assign, erase, runs of up to 3600 of them, find, lower_bound + iterator_next*k, "
            "begin + walk to the end, size). oracle: O-range with the run-time epsilon against std::lower_bound; std::map for every dynamic call incl. the "
            "iterator_next protocol (current pair then advance; false exactly at the end). non-trivial: static with epsilon != 1, an absent query and >= 2 "
